@@ -117,6 +117,38 @@ class ReplayPrecondition(Exception):
     pass
 
 
+def _missing_attr_is_set_by_init(e):
+    """AttributeError on obj.name where type(obj).__init__ (or a method it calls on self, one level) assigns self.name at top level"""
+    import ast
+    import inspect
+    import textwrap
+    obj, name = getattr(e, "obj", None), getattr(e, "name", None)
+    if obj is None or name is None or isinstance(obj, type):
+        return False
+    cls = type(obj)
+    if not getattr(cls, "__module__", "").startswith("tlexport"):
+        return False
+
+    def sets(fn, depth):
+        try:
+            tree = ast.parse(textwrap.dedent(inspect.getsource(fn)))
+        except Exception:
+            return set()
+        out = set()
+        for st in tree.body[0].body:
+            for t in (st.targets if isinstance(st, ast.Assign) else [st.target] if isinstance(st, (ast.AnnAssign, ast.AugAssign)) else []):
+                if isinstance(t, ast.Attribute) and isinstance(t.value, ast.Name) and t.value.id == "self":
+                    out.add(t.attr)
+            if depth == 0 and isinstance(st, ast.Expr) and isinstance(st.value, ast.Call) and isinstance(st.value.func, ast.Attribute) \
+                    and isinstance(st.value.func.value, ast.Name) and st.value.func.value.id == "self":
+                m = getattr(cls, st.value.func.attr, None)
+                if m is not None:
+                    out |= sets(m, 1)
+        return out
+    init = cls.__dict__.get("__init__") or getattr(cls, "__init__", None)
+    return init is not None and name in sets(init, 0)
+
+
 class Obj:  # placeholder so contracts can import the name
     pass
 
@@ -420,9 +452,18 @@ class Ctx:
         o.__dict__.update(attrs)
         return o
 
-    def obj(self, qualname, **attrs):
-        cls = _resolve(qualname)
-        o = cls.__new__(cls)
+    def obj(self, qualname, _bare=False, **attrs):
+        from . import api
+        mk = api.COMPLETERS.get(qualname)
+        if mk is not None and not _bare and not getattr(self, "_completing", False):
+            self._completing = True
+            try:
+                o = mk(self)
+            finally:
+                self._completing = False
+        else:
+            cls = _resolve(qualname)
+            o = cls.__new__(cls)
         for k, v in attrs.items():
             setattr(o, k, v)
         return o
@@ -464,6 +505,10 @@ class Ctx:
             raise
         except BaseException as e:  # SystemExit included
             import traceback
+            if isinstance(e, AttributeError) and _missing_attr_is_set_by_init(e):
+                # the object was put together by the contract (bypassing __init__) and lacks an attribute the real constructor always
+                # sets: the contract's state description is incomplete for this tree - not a failing input
+                raise ReplayPrecondition("contract-built object lacks an attribute __init__ sets: %s" % e)
             self.notes.append(traceback.format_exc(limit=6))
             return Outcome(exc=exc_name(e), msg=str(e))
 
